@@ -546,6 +546,11 @@ impl<'l, Data> EventLoop<'l, Data> {
             }
         }
 
+        // An error from one source must not cost the other sources their events (edge-triggered
+        // and one-shot readiness, and expired timers, are only reported once): remember the
+        // first error, finish the batch, and report it at the end.
+        let mut first_error = None;
+
         for event in self.synthetic_events.drain(..).chain(events) {
             // Get the registration token associated with the event.
             let reg_token = event.token.inner.forget_sub_id();
@@ -561,14 +566,22 @@ impl<'l, Data> EventLoop<'l, Data> {
 
             if let Some(disp) = opt_disp {
                 trace!(source = reg_token.get_id(), "Dispatching events for source");
-                let mut ret = disp.process_events(event.readiness, event.token, data)?;
+                let ret = disp.process_events(event.readiness, event.token, data);
 
                 // if the returned PostAction is Continue, it may be overwritten by a user-specified pending action
+                // (always taken out, so that it can never be applied to another source)
                 let pending_action = self
                     .handle
                     .inner
                     .pending_action
                     .replace(PostAction::Continue);
+                let mut ret = match ret {
+                    Ok(ret) => ret,
+                    Err(err) => {
+                        first_error.get_or_insert(err);
+                        PostAction::Continue
+                    }
+                };
                 if let PostAction::Continue = ret {
                     ret = pending_action;
                 }
@@ -579,7 +592,7 @@ impl<'l, Data> EventLoop<'l, Data> {
                             source = reg_token.get_id(),
                             "Postaction reregister for source"
                         );
-                        disp.reregister(
+                        if let Err(err) = disp.reregister(
                             &mut self.handle.inner.poll.borrow_mut(),
                             &mut self
                                 .handle
@@ -587,14 +600,16 @@ impl<'l, Data> EventLoop<'l, Data> {
                                 .sources_with_additional_lifecycle_events
                                 .borrow_mut(),
                             &mut TokenFactory::new(reg_token),
-                        )?;
+                        ) {
+                            first_error.get_or_insert(err);
+                        }
                     }
                     PostAction::Disable => {
                         trace!(
                             source = reg_token.get_id(),
                             "Postaction unregister for source"
                         );
-                        disp.unregister(
+                        if let Err(err) = disp.unregister(
                             &mut self.handle.inner.poll.borrow_mut(),
                             &mut self
                                 .handle
@@ -602,7 +617,9 @@ impl<'l, Data> EventLoop<'l, Data> {
                                 .sources_with_additional_lifecycle_events
                                 .borrow_mut(),
                             RegistrationToken::new(reg_token),
-                        )?;
+                        ) {
+                            first_error.get_or_insert(err);
+                        }
                     }
                     PostAction::Remove => {
                         trace!(source = reg_token.get_id(), "Postaction remove for source");
@@ -643,7 +660,10 @@ impl<'l, Data> EventLoop<'l, Data> {
             }
         }
 
-        Ok(())
+        match first_error {
+            Some(err) => Err(err),
+            None => Ok(()),
+        }
     }
 
     fn dispatch_idles(&mut self, data: &mut Data) {
